@@ -45,8 +45,10 @@ class Built:
         log = self.log
 
         def impl(*args):
-            log.append(("body", name))
+            # lazy inputs (Iter / Map) are consumed first, as a real body would before doing its work; a
+            # failure while consuming them is a failure of the inputs, not a run of the body
             args = tuple(sem.freeze(a) for a in args)
+            log.append(("body", name))
             if partial and sem.PARTIAL_WHEN[partial["when"]](args):
                 raise sem.EXC[partial["exc"]](f"partial:{name}")
             if kind == "first":
